@@ -77,14 +77,16 @@ pub fn srv_tok<S: std::io::Read + std::io::Write + dicom_ul::association::CloseS
     }
 }
 
-fn finish<A: AccessControl, N: Negotiation>(o: ServerAssociationOptions<'static, A, N>, s: TcpStream) -> SrvResult {
-    o.establish(s)
+/// something to do with the statically typed options
+pub trait Act {
+    type Out;
+    fn run<A: AccessControl, N: Negotiation>(self, o: ServerAssociationOptions<'static, A, N>) -> Self::Out;
 }
-fn step_neg<A: AccessControl>(o: ServerAssociationOptions<'static, A, DefaultNegotiation>, neg: u8, s: TcpStream) -> SrvResult {
+fn step_neg<A: AccessControl, T: Act>(o: ServerAssociationOptions<'static, A, DefaultNegotiation>, neg: u8, act: T) -> T::Out {
     if neg == 0 {
-        finish(o, s)
+        act.run(o)
     } else {
-        finish(o.with_negotiation(Neg(neg)), s)
+        act.run(o.with_negotiation(Neg(neg)))
     }
 }
 pub fn options(c: &Cfg) -> ServerAssociationOptions<'static, AcceptAny, DefaultNegotiation> {
@@ -102,17 +104,53 @@ pub fn options(c: &Cfg) -> ServerAssociationOptions<'static, AcceptAny, DefaultN
     }
     o
 }
-/// run the real `establish` for this configuration on an accepted connection
-pub fn establish_cfg(c: &Cfg, s: TcpStream) -> SrvResult {
+pub fn dispatch<T: Act>(c: &Cfg, act: T) -> T::Out {
     let o = options(c);
     match &c.ac {
-        Ac::Any => step_neg(o.accept_any(), c.neg, s),
-        Ac::Called => step_neg(o.accept_called_ae_title(), c.neg, s),
-        Ac::Calling(x) => step_neg(o.ae_access_control(AcceptCalling(x.clone())), c.neg, s),
-        Ac::Ident => step_neg(o.ae_access_control(RequireIdentity), c.neg, s),
+        Ac::Any => step_neg(o.accept_any(), c.neg, act),
+        Ac::Called => step_neg(o.accept_called_ae_title(), c.neg, act),
+        Ac::Calling(x) => step_neg(o.ae_access_control(AcceptCalling(x.clone())), c.neg, act),
+        Ac::Ident => step_neg(o.ae_access_control(RequireIdentity), c.neg, act),
     }
 }
 
+struct Establish(TcpStream);
+impl Act for Establish {
+    type Out = SrvResult;
+    fn run<A: AccessControl, N: Negotiation>(self, o: ServerAssociationOptions<'static, A, N>) -> SrvResult {
+        o.establish(self.0)
+    }
+}
+/// run the real `establish` for this configuration on an accepted connection
+pub fn establish_cfg(c: &Cfg, s: TcpStream) -> SrvResult {
+    dispatch(c, Establish(s))
+}
+
+struct Process(Pdu);
+impl Act for Process {
+    type Out = (String, String);
+    fn run<A: AccessControl, N: Negotiation>(self, o: ServerAssociationOptions<'static, A, N>) -> (String, String) {
+        match dicom_ul::verif_hooks::process_a_association_rq(&o, self.0) {
+            Ok((reply, n, called)) => (
+                pdu_tok(&reply),
+                format!(
+                    "ok {} - {} {} {} {}",
+                    n.peer_max_pdu_length,
+                    hexs(&n.peer_ae_title),
+                    hexs(&called),
+                    negotiated_tok(&n.presentation_contexts),
+                    uvs_tok(&n.user_variables)
+                ),
+            ),
+            Err((reply, e)) => (pdu_tok(&reply), err_tok(&e).to_string()),
+        }
+    }
+}
+/// the real `process_a_association_rq`, in-process through the verification hook:
+/// (answer PDU tokens, negotiated state tokens; the acceptor's own maximum is not part of it: `-`)
+pub fn process_cfg(c: &Cfg, first: Pdu) -> (String, String) {
+    dispatch(c, Process(first))
+}
 
 pub fn serve(c: &Cfg, s: TcpStream) -> String {
     srv_tok(&establish_cfg(c, s))
